@@ -1,9 +1,9 @@
 SPECIFICATION Spec
 CONSTANTS
   Alphabet = {32, 9, 12288, 97, 39, 13, 10}
-  N = 7
+  N = 4
   Quotes = 3
-  FirstBreak = "lf"
+  FirstBreak = "crlf"
   STRIP_BY_LENGTH = FALSE
 INVARIANTS NonBlankKept ValueKept Reindented Fixpoint ImplSubset Emit
 CHECK_DEADLOCK FALSE
